@@ -16,8 +16,8 @@ theorem possible_exact (cfg : Cfg) (k : Bytes) :
   Proofs.ProtocolB.possible_exact cfg k
 
 theorem capinv_step (cfg : Cfg) (adv : List Bytes) (st : St) (e : Event) (h : CapInv cfg adv st) :
-    CapInv cfg (adv ++ advertisedBy e) (handleCAP cfg st e).1 := by
-  sorry
+    CapInv cfg (adv ++ advertisedBy e) (handleCAP cfg st e).1 :=
+  Proofs.ProtocolB.capinv_step cfg adv st e h
 
 /-- Every CAP REQ the client writes lists exactly the pending capabilities (after this event). -/
 theorem req_is_pending (cfg : Cfg) (st : St) (e : Event) (x : Bytes) :
